@@ -21,7 +21,9 @@ fn main() -> ExitCode {
     let args: Vec<String> = std::env::args().skip(1).collect();
     match args.first().map(String::as_str) {
         Some("eval") if args.len() == 1 => {
-            std::panic::set_hook(Box::new(|_| {}));
+            if std::env::var_os("JHARNESS_SHOW_PANICS").is_none() {
+                std::panic::set_hook(Box::new(|_| {}));
+            }
             match eval::run() {
                 Ok(()) => ExitCode::SUCCESS,
                 Err(e) if e.kind() == std::io::ErrorKind::BrokenPipe => ExitCode::SUCCESS,
